@@ -172,7 +172,6 @@ def env():
     from pyrtma.validators import ByteArray
     from pyrtma import exceptions as EX
 
-    PC.select = FakeSelect
     # sockets made by the client code: the next prepared stream, else an unconnected blank
     queue: List[FakeSock] = []
     shim = type("SockShim", (), {})()
@@ -181,10 +180,7 @@ def env():
             setattr(shim, k, getattr(_socket, k))
     shim.socket = lambda *a, **k: queue.pop(0) if queue else FakeSock(b"", "idle")
     shim.getprotobyname = lambda n: 6
-    PC.socket = shim
-
-    PC.time = Clock
-    from .rebind import rebind              # the same stand-ins under any import style of client.py
+    from .rebind import rebind              # installs the stand-ins under any import style of client.py
     rebind(PC, {"select": FakeSelect, "socket": shim, "time": Clock})
     _ENV["queue"] = queue
     for tid, (size, h) in TEST_DEFS.items():
@@ -477,9 +473,8 @@ def tcp_smoke(cases: List[Dict[str, Any]]) -> List[Dict[str, Any]]:
         PV.set_sock(c, cli)
         PV.set_connected(c, True)
         PV.set_subscription_state(c, case["sub"][0], case["sub"][1])
-        saved = PC.select
-        PC.select = real_select
-        from .rebind import rebind
+        from .rebind import rebind, snapshot, reinstate
+        saved = snapshot(PC, ("select",))
         rebind(PC, {"select": real_select})
         real = []
         try:
@@ -501,8 +496,7 @@ def tcp_smoke(cases: List[Dict[str, Any]]) -> List[Dict[str, Any]]:
                     r = f"crash:{type(e).__name__}"
                 real.append([r, int(bool(c.connected))])
         finally:
-            PC.select = saved
-            rebind(PC, {"select": saved})
+            reinstate(PC, saved)
             PV.set_connected(c, False)
             cli.close()
         fk = [[f[2], int(f[1])] for f in fake]
